@@ -76,19 +76,21 @@ JsonA == <<
   "{", "}", "[", "]", ":", ",", "\"a\"", "\"u",
   "1", "-", "1e999", "true", "null", "// c\n", "/*", "\"\\ud800\"" >>
 
-(* package.json / tsconfig.json: JSON structure plus the keys and values the resolver interprets *)
+(* package.json / tsconfig.json: JSON structure, the keys the resolver interprets (written with their
+   colon, so that two tokens are a member) and values of every JSON type *)
 Cfg == <<
-  "{", "}", "[", "]", ":", ",", "\"main\"", "\"module\"",
-  "\"browser\"", "\"exports\"", "\"imports\"", "\"type\"", "\"sideEffects\"", "\"name\"", "\".\"", "\"./a.js\"",
-  "\"#x\"", "\"*\"", "\"./*\"", "\"import\"", "\"default\"", "\"commonjs\"", "false", "true",
-  "null", "1", "\"extends\"", "\"compilerOptions\"", "\"paths\"", "\"baseUrl\"", "\"jsx\"", "\"target\"",
-  "\"react\"", "\"jsxFactory\"", "\"a.b\"", "\"\"", "\"useDefineForClassFields\"", "\"./tsconfig.json\"", "\"pkg\"", "\"../\"" >>
+  "{", "}", "[", "]", ",", ":", "\"main\":", "\"module\":",
+  "\"browser\":", "\"exports\":", "\"imports\":", "\"type\":", "\"sideEffects\":", "\"name\":", "\".\":", "\"#x\":",
+  "\"./*\":", "\"import\":", "\"default\":", "\"extends\":", "\"compilerOptions\":", "\"paths\":", "\"baseUrl\":", "\"jsx\":",
+  "\"target\":", "\"jsxFactory\":", "\"\":", "\"useDefineForClassFields\":", "\"*\":", "\"./a.js\"", "\"pkg\"", "\"react\"",
+  "\"a.b\"", "\"\"", "\"./tsconfig.json\"", "\"../\"", "false", "true", "null", "1" >>
 
 (* source map payloads *)
 Smap == <<
   "{", "}", "[", "]", ":", ",", "\"version\"", "3",
   "\"sources\"", "\"mappings\"", "\"names\"", "\"sourcesContent\"", "\"sections\"", "\"offset\"", "\"map\"", "\"line\"",
-  "\"AAAA\"", "\"AAAA;;,\"", "\"gggggggggggggg\"", "\"!\"", "null", "\"a.js\"", "-1", "1e99" >>
+  "\"AAAA\"", "\"AAAA;;,\"", "\"gggggggggggggg\"", "\"!\"", "null", "\"a.js\"", "-1", "1e99",
+  "\"ACAA\"", "\"AAAAC\"", "\"AADA\"", "\"AAAD\"", "\"D\"", "\"AAAA,C\"", "\"AAAAA,CAAAC\"", "\"A\"" >>
 
 Alphabet(lang) ==
   CASE lang = "jscore" -> JsCore [] lang = "jslit" -> JsLit [] lang = "jsdecl" -> JsDecl [] lang = "ts" -> Ts
@@ -107,9 +109,10 @@ TsFrames == << <<"", "">>, <<"class C {", "}">>, <<"let x: ", ";">>, <<"function
 JsxFrames == << <<"", "">>, <<"x = <div ", "/>">>, <<"x = <div>", "</div>">>, <<"x = <", ">">> >>
 CssFrames == << <<"", "">>, <<"a {", "}">>, <<"a { b: ", "}">>, <<"@media ", "{}">>, <<":is(", ") {}">> >>
 JsonFrames == << <<"", "">>, <<"[", "]">>, <<"{\"a\":", "}">> >>
-CfgFrames == << <<"", "">>, <<"{", "}">>, <<"{\"exports\":", "}">>, <<"{\"imports\":{", "}}">>,
-                <<"{\"compilerOptions\":{", "}}">>, <<"{\"compilerOptions\":{\"paths\":{", "}}}">>, <<"{\"browser\":{", "}}">> >>
-SmapFrames == << <<"", "">>, <<"{\"version\":3,\"sources\":[\"a.js\"],\"names\":[],\"mappings\":", "}">>,
+CfgFrames == << <<"", "">>, <<"{", "}">>, <<"{\"exports\":{", "}}">>, <<"{\"imports\":{", "}}">>,
+                <<"{\"compilerOptions\":{", "}}">>, <<"{\"compilerOptions\":{\"paths\":{", "}}}">>, <<"{\"browser\":{", "}}">>,
+                <<"{\"exports\":{\".\":{", "}}}">> >>
+SmapFrames == << <<"", "">>, <<"{\"version\":3,\"sources\":[\"a.js\"],\"names\":[\"n\"],\"mappings\":", "}">>,
                  <<"{\"version\":3,", "}">>, <<"{\"version\":3,\"sections\":[", "]}">> >>
 
 Frames(lang) ==
